@@ -9,6 +9,7 @@ package main
 // harness with the race detector.
 
 import (
+	"sync/atomic"
 	"bytes"
 	"encoding/binary"
 	"encoding/json"
@@ -32,6 +33,10 @@ func init() {
 		}
 		if err := json.Unmarshal(raw, &rp); err != nil {
 			r.Notes = append(r.Notes, "replay: "+err.Error())
+			return
+		}
+		if len(rp.Ops) > 0 && rp.Ops[0] == "dir-cache-storm" {
+			dirCacheStorm(r, 4*time.Second)
 			return
 		}
 		if len(rp.Ops) > 0 && rp.Ops[0] == "completed-writes-then-read" {
@@ -107,6 +112,15 @@ func ownSig(o SOp, r SRes) string {
 		s += fmt.Sprintf(" count=%d post=%s", r.Res.Count, a(r.Res.Wcc.Post))
 	case "setattr":
 		s += " post=" + a(r.Res.Wcc.Post)
+	case "readdir", "readdirplus":
+		var own []string
+		for _, e := range r.Entries {
+			if o.Name2 != "" && strings.HasPrefix(e.Name, o.Name2) {
+				own = append(own, e.Name)
+			}
+		}
+		sort.Strings(own)
+		s += " own=" + strings.Join(own, ",")
 	}
 	return s
 }
@@ -304,7 +318,12 @@ func genC29(rng *rand.Rand) c29Case {
 					}
 				}
 			default:
-				if rng.Intn(2) == 0 {
+				if rng.Intn(3) == 0 {
+					// list the *shared* directory while the other streams create, remove and rename in it (the stream is
+					// held to what it says about the stream's own names)
+					kind := []string{"readdir", "readdirplus"}[rng.Intn(2)]
+					st = append(st, SOp{Kind: kind, Dir: dir, Count: 8192, Name2: fmt.Sprintf("t%d", t)})
+				} else if rng.Intn(2) == 0 {
 					// SETATTR on the *shared* directory (its mode, unchanged): takes the directory node's write lock while
 					// other streams look names up in it
 					st = append(st, SOp{Kind: "setattr", Dir: dir, Sa: Sattr{Mode: p32(0o755)}})
@@ -323,7 +342,7 @@ func checkC29(r *Result, rng *rand.Rand, thorough bool) {
 	if thorough {
 		ncases, reps = 400, 6
 	}
-	r.Rule = "2-4 concurrent request streams (CREATE/MKDIR/WRITE/READ/LOOKUP/REMOVE/RMDIR/RENAME/GETATTR on stream-private names in two shared directories, and SETATTR of the shared directories themselves, through the real HandleCall), random yields and delays inside every backend call, several schedules per case; minimal-TTL runs compared reply by reply with each stream's solo run (= every serial order) and final tree with the union; runs with caches enabled checked for crashes, final tree and post-run agreement of handle table and caches with the backend; thorough tier under the race detector; plus a storm of 8 simultaneous LOOKUPs of one not-yet-handled name (1500 / 12000 fresh names): one handle value for all, one live handle per path"
+	r.Rule = "2-4 concurrent request streams (CREATE/MKDIR/WRITE/READ/LOOKUP/REMOVE/RMDIR/RENAME/GETATTR on stream-private names in two shared directories, READDIR(PLUS) and SETATTR of the shared directories themselves, through the real HandleCall), random yields and delays inside every backend call, several schedules per case; minimal-TTL runs compared reply by reply with each stream's solo run (= every serial order) and final tree with the union; runs with caches enabled checked for crashes, final tree and post-run agreement of handle table and caches with the backend; thorough tier under the race detector; plus a storm of 8 simultaneous LOOKUPs of one not-yet-handled name (1500 / 12000 fresh names): one handle value for all, one live handle per path"
 	for i := 0; i < ncases; i++ {
 		c := genC29(rng)
 		r.noteCase(fmt.Sprint(c.strings()), true)
@@ -367,6 +386,91 @@ func checkC29(r *Result, rng *rand.Rand, thorough bool) {
 		wr = 3000
 	}
 	completedWritesThenRead(r, rng, wr)
+	storm := 400 * time.Millisecond
+	if thorough {
+		storm = 4 * time.Second
+	}
+	dirCacheStorm(r, storm)
+}
+
+// dirCacheStorm: with the directory cache on, four clients list one shared directory without pause while four others
+// create and remove their own names in it (every mutation invalidates the listing the readers are using). Every
+// request must be answered: a client that gets no reply for three seconds is stuck behind a lock nobody will release.
+func dirCacheStorm(r *Result, dur time.Duration) {
+	fs := NewRefFS()
+	fs.logOn = false
+	seedFS(fs, []string{"mkdir /d"})
+	w := newWorldOn(fs, SrvCfg{AttrTTL: 5 * time.Second, DirCache: true, Neg: true})
+	w.noTrace = true
+	absnfs.VerifClockOff()
+	dh, _ := w.handleFor("/d", rootCred())
+	var progress [8]int64
+	stop := make(chan struct{})
+	var wg sync.WaitGroup
+	for k := 0; k < 8; k++ {
+		wg.Add(1)
+		go func(k int) {
+			defer wg.Done()
+			s2 := &Srv{NFS: w.srv.NFS, H: w.srv.H, S: w.srv.S, IP: "127.0.0.1", Port: 900 + k}
+			name := fmt.Sprintf("s%d", k)
+			for {
+				select {
+				case <-stop:
+					return
+				default:
+				}
+				if k < 4 {
+					if k%2 == 0 {
+						s2.NFSCall(16, rootCred(), argReaddir(dh, 0, zeroVerf, 8192))
+					} else {
+						s2.NFSCall(17, rootCred(), argReaddirplus(dh, 0, zeroVerf, 8192, 32768))
+					}
+				} else {
+					s2.NFSCall(8, rootCred(), argCreate(dh, name, 0, Sattr{}, nil))
+					s2.NFSCall(12, rootCred(), argDirop(dh, name))
+				}
+				atomic.AddInt64(&progress[k], 1)
+			}
+		}(k)
+	}
+	deadline := time.Now().Add(dur)
+	var last [8]int64
+	lastMove := time.Now()
+	stuck := false
+	for time.Now().Before(deadline) || stuck {
+		time.Sleep(50 * time.Millisecond)
+		moved := false
+		for k := range progress {
+			if v := atomic.LoadInt64(&progress[k]); v != last[k] {
+				last[k], moved = v, true
+			}
+		}
+		if moved {
+			lastMove = time.Now()
+			stuck = false
+		} else {
+			stuck = true
+			if time.Since(lastMove) > 3*time.Second {
+				var total int64
+				for _, v := range last {
+					total += v
+				}
+				r.violate(Violation{Class: "deadlock", What: fmt.Sprintf("directory cache on, 4 clients listing /d while 4 others create and remove names in it: after %d answered rounds no request was answered for 3 s", total),
+					Ops: []string{"dir-cache-storm"}, Case: c29Case{Cached: true}})
+				r.Notes = append(r.Notes, "stopped at the first deadlock")
+				return // the stuck goroutines keep their locks
+			}
+		}
+	}
+	close(stop)
+	wg.Wait()
+	var total int64
+	for _, v := range last {
+		total += v
+	}
+	r.Histogram["dir-cache-storm-rounds"] += int(total)
+	r.noteCase("dir-cache-storm", true)
+	w.Close()
 }
 
 // completedWritesThenRead: real-time order on one file. 2-4 clients extend the same file at the same time through
